@@ -155,7 +155,7 @@ func (e *engine) evaluate(k kase) {
 	}
 	if res.accepted {
 		s.Accepted++
-		if k.smoke {
+		if k.smoke == 1 || k.smoke == 2 && e.c.Thorough() {
 			e.smoke = append(e.smoke, k)
 		}
 	} else {
@@ -210,7 +210,7 @@ func keyShape(diff string) string {
 
 // runGroup evaluates the cases of a generator that belong to this shard
 // (case index modulo shard count), sequentially; shards are processes.
-func (e *engine) runGroup(name string, smoke bool, gen func(s *sink)) {
+func (e *engine) runGroup(name string, smoke int, gen func(s *sink)) {
 	capped := false
 	snk := &sink{}
 	snk.own = func() bool {
@@ -228,7 +228,8 @@ func (e *engine) runGroup(name string, smoke bool, gen func(s *sink)) {
 		}
 		return true
 	}
-	snk.put = func(doc J, desc string) {
+	snk.put = func(doc J, desc string) { snk.putL(doc, desc, smoke) }
+	snk.putL = func(doc J, desc string, smoke int) {
 		k := kase{idx: e.next, group: name, desc: desc, doc: doc, smoke: smoke}
 		e.next++
 		h := sha256.Sum256([]byte(render(doc)))
@@ -385,7 +386,7 @@ func runShards(e *engine, budget time.Duration) (mismatching int64) {
 			e.mismatches = append(e.mismatches, mismatch{m.Idx, m.Sig, m.What, m.Replay})
 		}
 		for _, k := range r.Smoke {
-			e.smoke = append(e.smoke, kase{idx: k.Idx, group: k.Group, desc: k.Desc, doc: k.Doc, smoke: true})
+			e.smoke = append(e.smoke, kase{idx: k.Idx, group: k.Group, desc: k.Desc, doc: k.Doc, smoke: 1})
 		}
 		hb, err := os.ReadFile(r.HashFile)
 		if err != nil {
@@ -462,7 +463,7 @@ func main() {
 	}
 
 	t0 := time.Now()
-	mismatching := runShards(e, harness.Pick(c, 60*time.Second, 40*time.Minute))
+	mismatching := runShards(e, harness.Pick(c, 150*time.Second, 60*time.Minute))
 	partATime := time.Since(t0)
 
 	sort.Slice(e.mismatches, func(i, k int) bool { return e.mismatches[i].idx < e.mismatches[k].idx })
@@ -537,7 +538,7 @@ func partA(e *engine) {
 	thorough := e.c.Thorough()
 
 	// A1: every server protocol x client protocol x listener form x enabled networks
-	e.runGroup("protocol-matrix", true, func(s *sink) {
+	e.runGroup("protocol-matrix", 2, func(s *sink) {
 		bools := []bool{true, false}
 		for _, legacy := range []bool{false, true} {
 			for _, sp := range serverProtoLetters {
@@ -550,7 +551,11 @@ func partA(e *engine) {
 										continue
 									}
 									o := baseOpts{sp: sp.(string), cp: cp.(string), legacy: legacy, sTCP: sT, sUDP: sU, cTCP: cT, cUDP: cU}
-									s.put(baseDoc(o), fmt.Sprintf("server=%q client=%q legacy=%v serverTCP=%v serverUDP=%v clientTCP=%v clientUDP=%v", sp, cp, legacy, sT, sU, cT, cU))
+									level := 2
+									if sT && sU && cT && cU {
+										level = 1
+									}
+									s.putL(baseDoc(o), fmt.Sprintf("server=%q client=%q legacy=%v serverTCP=%v serverUDP=%v clientTCP=%v clientUDP=%v", sp, cp, legacy, sT, sU, cT, cU), level)
 								}
 							}
 						}
@@ -568,7 +573,7 @@ func partA(e *engine) {
 						}
 						d := baseDoc(baseOpts{sp: sp.(string), legacy: legacy, sTCP: true, sUDP: true, multiUser: multi, noClients: true})
 						setPath(d, "clients", clients)
-						s.put(d, fmt.Sprintf("server=%q legacy=%v multiUser=%v clients=%s", sp, legacy, multi, letter(clients)))
+						s.putL(d, fmt.Sprintf("server=%q legacy=%v multiUser=%v clients=%s", sp, legacy, multi, letter(clients)), 1)
 					}
 				}
 			}
@@ -584,7 +589,16 @@ func partA(e *engine) {
 	})
 
 	// A2: the tunnel section, full product
-	e.runGroup("tunnel-section", true, func(s *sink) {
+	e.runGroup("tunnel-section", 1, func(s0 *sink) {
+		// nothing listens on [::1]:53: load-time only
+		s := &sink{own: s0.own, put: func(doc J, desc string) {
+			level := 1
+			if strings.Contains(desc, "[::1]") {
+				level = 0
+			}
+			s0.putL(doc, desc, level)
+		}}
+		s.putL = s0.putL
 		for _, legacy := range []bool{false, true} {
 			for _, nets := range [][2]bool{{true, true}, {true, false}, {false, true}} {
 				base := func() J {
@@ -607,10 +621,14 @@ func partA(e *engine) {
 	nv := harness.Pick(e.c, 2, len(variants))
 
 	// A3: all single deviations from the rich base (also the core of the smoke set)
-	for _, v := range variants[:harness.Pick(e.c, 4, len(variants))] {
+	for vi, v := range variants[:harness.Pick(e.c, 4, len(variants))] {
 		axes := richAxes(v.legacy)
 		base := func() J { return richDoc(v.sp, v.legacy) }
-		e.runGroup(fmt.Sprintf("singles(%s,legacy=%v)", v.sp, v.legacy), true, func(s *sink) {
+		level := 2
+		if vi < 2 {
+			level = 1
+		}
+		e.runGroup(fmt.Sprintf("singles(%s,legacy=%v)", v.sp, v.legacy), level, func(s *sink) {
 			if s.own() {
 				s.put(base(), "base")
 			}
@@ -643,14 +661,14 @@ func partA(e *engine) {
 			if len(chosen) == 0 {
 				continue
 			}
-			e.runGroup(p.name+tag, false, func(s *sink) { product(base, axes, chosen, s) })
+			e.runGroup(p.name+tag, 0, func(s *sink) { product(base, axes, chosen, s) })
 		}
 	}
 	// client sections do not depend on the server variant
 	{
 		axes := richAxes(false)
 		base := func() J { return richDoc(m128, false) }
-		e.runGroup("client-section", false, func(s *sink) { product(base, axes, sectionAxes(axes, "client"), s) })
+		e.runGroup("client-section", 0, func(s *sink) { product(base, axes, sectionAxes(axes, "client"), s) })
 		for _, method := range []string{m128, m256} {
 			base := func() J {
 				d := richDoc(m128, false)
@@ -663,11 +681,11 @@ func partA(e *engine) {
 					sel = append(sel, i)
 				}
 			}
-			e.runGroup("ss2022-client-section("+method+")", false, func(s *sink) { product(base, axes, sel, s) })
+			e.runGroup("ss2022-client-section("+method+")", 0, func(s *sink) { product(base, axes, sel, s) })
 		}
 	}
 	// MTU x NAT timeout x method x user mode: the two numeric invariants together
-	e.runGroup("ss2022-mtu-nat-keys", false, func(s *sink) {
+	e.runGroup("ss2022-mtu-nat-keys", 0, func(s *sink) {
 		for _, legacy := range []bool{false, true} {
 			for _, method := range []string{m128, m256} {
 				for _, multi := range []bool{false, true} {
@@ -692,17 +710,21 @@ func partA(e *engine) {
 	})
 
 	// A5: all pairs across all fields
-	for _, v := range variants[:nv] {
+	for vi, v := range variants[:nv] {
 		axes := richAxes(v.legacy)
 		base := func() J { return richDoc(v.sp, v.legacy) }
-		e.runGroup(fmt.Sprintf("pairs(%s,legacy=%v)", v.sp, v.legacy), false, func(s *sink) { tuples(base, axes, 2, s) })
+		level := 0
+		if vi < 2 {
+			level = 2
+		}
+		e.runGroup(fmt.Sprintf("pairs(%s,legacy=%v)", v.sp, v.legacy), level, func(s *sink) { tuples(base, axes, 2, s) })
 	}
 	// A6 (thorough): all triples
 	if thorough {
 		for _, v := range variants[:2] {
 			axes := richAxes(v.legacy)
 			base := func() J { return richDoc(v.sp, v.legacy) }
-			e.runGroup(fmt.Sprintf("triples(%s,legacy=%v)", v.sp, v.legacy), false, func(s *sink) { tuples(base, axes, 3, s) })
+			e.runGroup(fmt.Sprintf("triples(%s,legacy=%v)", v.sp, v.legacy), 0, func(s *sink) { tuples(base, axes, 3, s) })
 		}
 	}
 }
@@ -731,13 +753,21 @@ func crashShape(stderr string) (string, string) {
 			break
 		}
 	}
-	if i := strings.Index(msg, " [recovered]"); i >= 0 {
+	if i := strings.Index(msg, " [recovered"); i >= 0 {
 		msg = msg[:i]
 	}
-	frame := ""
-	if m := reFrame.FindStringSubmatch(stderr); m != nil {
-		frame = strings.TrimPrefix(m[1], "github.com/database64128/shadowsocks-go/")
+	// the first two distinct repository frames: where it was raised < who called that
+	var frames []string
+	for _, m := range reFrame.FindAllStringSubmatch(stderr, -1) {
+		f := strings.TrimPrefix(m[1], "github.com/database64128/shadowsocks-go/")
+		if len(frames) == 0 || frames[len(frames)-1] != f {
+			frames = append(frames, f)
+		}
+		if len(frames) == 2 {
+			break
+		}
 	}
+	frame := strings.Join(frames, " < ")
 	msg = reDigits.ReplaceAllString(msg, "N")
 	if len(msg) > 140 {
 		msg = msg[:140]
@@ -769,7 +799,7 @@ func runSmoke(e *engine, k kase) smokeOutcome {
 	go func() { done <- cmd.Wait() }()
 	select {
 	case err = <-done:
-	case <-time.After(60 * time.Second):
+	case <-time.After(120 * time.Second):
 		cmd.Process.Kill()
 		<-done
 		out.timedOut = true
@@ -815,7 +845,7 @@ func partC(e *engine) {
 		seen[r] = true
 		set = append(set, k)
 	}
-	deadline := time.Now().Add(harness.Pick(c, 100*time.Second, 60*time.Minute))
+	deadline := time.Now().Add(harness.Pick(c, 240*time.Second, 90*time.Minute))
 	outs := make([]*smokeOutcome, len(set))
 	var wg sync.WaitGroup
 	sem := make(chan struct{}, harness.Workers())
@@ -876,7 +906,7 @@ func partC(e *engine) {
 			}
 			if o.res.StopHang {
 				stopHang++
-				c.Cap("services did not stop within 10 s for " + smokeKey(set[i]))
+				c.Cap("services did not stop within 20 s for " + smokeKey(set[i]))
 			}
 			for k, n := range o.res.Ops {
 				ops[k] += n
